@@ -440,3 +440,16 @@ pub(crate) fn mk_call_real<S>(pk: usize, hi: usize, writer: BodyWriter, reader: 
         _ph: PhantomData,
     }
 }
+
+/// As `mk_call_in` but over a given request.
+pub(crate) fn mk_call_req<S>(req: Request<()>, pk: usize, hi: usize, writer: BodyWriter, reader: Option<BodyReader>, analyzed: bool) -> Call<S, ()> {
+    Call {
+        request: ah::mk_amended(req),
+        analyzed,
+        state: mk_state_phase(pk, hi, writer, reader),
+        _ph: PhantomData,
+    }
+}
+pub(crate) fn writer_of<S>(c: &Call<S, ()>) -> BodyWriter {
+    c.state.writer
+}
